@@ -203,3 +203,77 @@ def sysctl_terminator_rule(rep, u, fname="sysctl_str_to_buf"):
                                              "the reader gets the whole rest of the buffer (%s bytes) and the terminator is stored at index %s of %d: one byte behind the buffer "
                                              "(sysctl_str_to_buf(.., \"OS: \", 4, malloc(9), 9) with \"Linux\")" % (cap, size, buf_size))
     return n
+
+
+# ------------------------------------------------------------------ fourth audit (replays/C12-hunt4, replays/C17-hunt4)
+
+def asn_length_octets_rule(rep, u, fname="asn_parse"):
+    """long-form length: once the first significant octet is in the accumulator only sizeof(accumulator) - 1 further octets
+    fit: the test that refuses longer lengths is true for a remaining count equal to the accumulator size (with 9 octets the
+    first one is shifted out and 2^64 + 1 parses as 1)"""
+    from rules import r_mpt
+    fn = u.fn(fname)
+    if fn is None or not fn.has_cfg:
+        raise driver.AnalysisBroken("anchor %s vanished" % fname)
+    rep.functions.add(fname)
+    n = 0
+    for bid in fn.reachable_blocks():
+        c = fn.blocks[bid].cond
+        if c is None:
+            continue
+        for y, _ in _walk(c):
+            if y.get("k") == "bin" and y["op"] in (">", ">=", "<", "<=") and any(z.get("k") == "sizeof" for z, _z in _walk(y)):
+                cnt = [z for z, _z in _walk(y) if core.is_ref(z) and z.get("dk") == "local"]
+                sz = [const_val(z) for z, _z in _walk(y) if z.get("k") == "sizeof" and const_val(z) is not None]
+                if not cnt or not sz:
+                    continue
+                # only the long-form length test: it leads to EOVERFLOW
+                over = [s_ for s_ in fn.blocks[bid].rsucc() if any(e.get("k") == "ret" and "EOVERFLOW" in core.macros(e.get("e") or {}) for e in fn.blocks[s_].elems)]
+                if not over:
+                    continue
+                n += 1
+                try:
+                    v = r_mpt.eval_expr(c, {id(z): sz[0] for z in cnt})
+                except r_mpt.Unknown:
+                    rep.undecided("R-LENOCT", fn, "length-octets-fit", "%s: the long-form length test refuses %d further octets" % (fname, sz[0]), "not evaluable")
+                    continue
+                s_ = fn.blocks[bid].succ[0] if v else fn.blocks[bid].succ[1]
+                ok = s_ in over
+                desc = "%s: with one significant length octet already accumulated, %d further octets are refused" % (fname, sz[0])
+                (rep.proved if ok else rep.violated)("R-LENOCT", fn, "length-octets-fit", desc, key(y)[:40] if ok else
+                                                     "%s lets %d more octets through: 04 89 01 00 00 00 00 00 00 00 01 (length 2^64 + 1) parses with data_size 1" % (key(y)[:40], sz[0]), y.get("ln"))
+    return n
+
+
+def record_realloc_rule(rep, u, fname="ini_val_set"):
+    """growing a record: (a) the recorded capacity is updated on every way out of the realloc (glibc often grows in place and
+    returns the same address; a stale small capacity makes the next, shorter set shrink the block under a value that points
+    into it); (b) a value that points into the record is re-derived after the block may have moved"""
+    fn = u.fn(fname)
+    if fn is None or not fn.has_cfg:
+        raise driver.AnalysisBroken("anchor %s vanished" % fname)
+    rep.functions.add(fname)
+    re_ = [pos for pos, root, c, ps in fn.calls({"realloc"})]
+    cps = [pos for pos, root, c, ps in fn.calls({"memcpy", "memmove", "__builtin___memmove_chk", "__builtin___memcpy_chk"}) if
+           core.base_ref(c["args"][1]) is not None and core.base_ref(c["args"][1]).get("n") == "val"]
+    if not re_ or not cps:
+        raise driver.AnalysisBroken("%s: realloc or the value copy not found" % fname)
+    n = 0
+    for rp in re_:
+        n += 1
+        caps = {pos[0] for pos, root, x, ps in fn.nodes() if x.get("k") == "bin" and x["op"] == "=" and key(core.strip_casts(x["x"])).endswith("data_allocated_size") and
+                (pos[0] in fn.reach_from([rp[0]]) or pos[0] == rp[0])}
+        # failure exit of the realloc (returns) is not a way to the copy
+        bad = any(cp[0] in fn.reach_from([rp[0]], avoid=caps) for cp in cps) and rp[0] not in caps
+        desc = "%s: the capacity of the record is stored on every path from the realloc to the value copy" % fname
+        (rep.violated if bad else rep.proved)("R-RECAP", fn, "capacity-follows-realloc", desc,
+                                              "when realloc returns the same address the stale capacity stays: a later shorter set reallocs again, shrinks the block and the "
+                                              "value (a pointer from ini_val_get into it) is read from the freed tail - heap metadata in the stored value" if bad else "")
+        n += 1
+        rebased = any(x.get("k") == "bin" and x["op"] == "=" and core.is_ref(core.strip_casts(x["x"]), name="val") and (pos[0] in fn.reach_from([rp[0]]) or pos[0] == rp[0])
+                      for pos, root, x, ps in fn.nodes())
+        desc = "%s: a value that points into the record is re-derived after the realloc" % fname
+        (rep.proved if rebased else rep.violated)("R-RECAP", fn, "aliased-value-rebased", desc, "" if rebased else
+                                                  "the record moves and the value is then read through the old pointer: setting a key to bytes of its own record that need more "
+                                                  "room is a heap use-after-free read")
+    return n
